@@ -14,6 +14,17 @@
 @m = global i32 4294967295
 @n = global i1 1
 @o = global i1 0
+@p = global i64 9223372036854775808
+@q = global i64 18446744073709551615
+@r = global i128 18446744069414584320
+@s = global i128 1267650600228229401496703205376
+@t = global i64 u0x8000000000000000
+@u = global i8 255
+@v = global i8 128
+@w = global i128 18446744073709551616
+@x = global i65 18446744073709551616
+@y = global i64 -1
+@z = global i16 65280
 ;;; ATOM const/float-forms
 @a = global float 1.000000e+00
 @b = global float -2.500000e-01
